@@ -129,6 +129,7 @@ where
 }
 
 impl DepthFirstNumber {
+    pub(crate) const MIN: DepthFirstNumber = DepthFirstNumber { index: 0 };
     pub(crate) const MAX: DepthFirstNumber = DepthFirstNumber { index: usize::MAX };
 }
 
